@@ -479,6 +479,16 @@ func (c *Ctx) run() {
 			c.assume("true", c.nonNil(v.T))
 		}
 	}
+	// variables captured by reference are distinct variables: their cells are distinct
+	for i, a := range fn.FreeVars {
+		for _, b := range fn.FreeVars[i+1:] {
+			pa, okA := a.Type().Underlying().(*types.Pointer)
+			pb, okB := b.Type().Underlying().(*types.Pointer)
+			if okA && okB && types.Identical(pa.Elem(), pb.Elem()) && fr.vals[a].T != "" && fr.vals[b].T != "" {
+				c.assume("true", fmt.Sprintf("(not (= %s %s))", fr.vals[a].T, fr.vals[b].T))
+			}
+		}
+	}
 	ev := c.newSpecEval(fr, st, c.entry)
 	if con == nil {
 		c.defaultPreconditions(fr, st)
